@@ -129,7 +129,7 @@ let () =
                | IEval (_, e) -> show_res (fun v -> show_obs (sobs v)) (spec_run n defs e) :: go defs rest
                | IFull (_, e) -> show_res show_data (spec_run_full n defs e) :: go defs rest
                | IQuery (_, x, path) ->
-                   show_res (fun v -> show_obs (sobs v)) (squery n (Var x, top_senv defs ENil) path) :: go defs rest) in
+                   show_res (fun v -> show_obs (sobs v)) (spec_run_query n defs x path) :: go defs rest) in
         print_endline (String.concat " | " (go [] inputs))
       end else begin
         let rec go s = function
